@@ -96,6 +96,32 @@ def battery():
             q.append(["f", "meter", fn, [m]])
     for i in range(12):
         q.append(["f", "notes", "int_to_note", [i, "b" if i % 2 else "#"]])
+    # neighbours that a coarse cache key would confuse: same notes with other flags, reversed pairs, near-identical floats,
+    # repeated degrees, upper/lower-case keys
+    for ch in [["E", "G", "Bb", "D", "C"], ["G", "B", "D", "F", "A", "C"], ["A", "C", "E", "G", "Bb", "D", "F"], ["C", "E", "G", "Bb", "F#"]]:
+        for flags in ([True, True], [True, False, True], [False, True], [False, False, True], [True], [False]):
+            q.append(["f", "chords", "determine", [ch] + flags])
+    for a, b in [["C", "Dbb"], ["Dbb", "C"], ["B#", "C"], ["C", "B#"], ["C#", "Db"], ["Db", "C#"], ["E", "F"], ["F", "E"]]:
+        q.append(["f", "intervals", "determine", [a, b]])
+        q.append(["f", "intervals", "determine", [a, b, True]])
+        q.append(["f", "intervals", "measure", [a, b]])
+    for n in ["E", "Bb", "C##"]:
+        for sh in ["2", "b7", "#5"]:
+            q.append(["f", "intervals", "from_shorthand", [n, sh]])
+            q.append(["f", "intervals", "from_shorthand", [n, sh, False]])
+            q.append(["f", "intervals", "from_shorthand", [n, sh, True]])
+    for v in [4.571428571428571, 4.571428571428572, 4.5714285714285705, 2.2857142857142856, 2.285714285714286, 10.666666666666666, 10.666666666666668,
+              3.0, 3.0000000000000004, 0.26666666666666666]:
+        q.append(["f", "value", "determine", [v]])
+    for k in ["C", "c", "A", "a", "Eb", "eb"]:
+        q.append(["f", "progressions", "to_chords", [["II7", "bII7", "I7", "II"], k]])
+        q.append(["f", "progressions", "to_chords", [["bII", "IIm7", "II"], k]])
+        q.append(["scale", "Chromatic", [k], "ascending", []])
+        q.append(["scale", "Chromatic", [k], "descending", []])
+    for n in ["C" + "b" * 12, "C" + "#" * 11 + "b", "E" + "#" * 24, "F" + "b" * 22]:
+        q.append(["f", "notes", "note_to_int", [n]])
+        q.append(["f", "intervals", "major_third", [n]])
+        q.append(["f", "notes", "remove_redundant_accidentals", [n]])
     return q
 
 
